@@ -13,7 +13,7 @@ from . import c02
 
 ID = 'C04'
 LEVEL = 'exploration'
-RUNS = {'quick': 1000}
+RUNS = {'quick': 4000}
 BUDGET_S = {'thorough': 600}
 RULE = ('one evaluation = one interleaving: k in [2,6] (sometimes up to 30) independent per-connection histories (content a '
         'function of (seed, connection index) only) merged by the seeded scheduler into one stream and run through the real '
